@@ -29,6 +29,29 @@ var goVariants = map[string]string{
 type Token struct{ Type int }
 type P struct{ lox }
 `,
+	"ill-typed-below-line-directive": `package main
+
+type Token struct{ Type int }
+type P struct{ lox }
+
+//line actions.tmpl:40
+func (p *P) on_s(a Token) int { return toInt(a) }
+`,
+	"syntax-error-below-line-directive": `package main
+
+type Token struct{ Type int }
+type P struct{ lox }
+
+//line actions.y:7
+func (p *P) on_s(a Token) int { return ( }
+`,
+	"ill-typed-line-directive-with-column": `package main
+
+type Token struct{ Type int }
+type P struct{ lox }
+
+/*line other.go:3:9*/ var x int = "s"
+`,
 	"no-token": `package main
 
 type P struct{ lox }
@@ -277,6 +300,20 @@ func checkC12(c *checkCtx) {
 	valid := "@lexer\nA = 'a'\n@parser\n@start s = A\n"
 	for name, src := range goVariants {
 		addJob("go package: "+name, valid, src, true)
+	}
+	// rule types whose Go type strings contain characters special to templating / HTML escaping; the rule is used
+	// as a term (also under +), so its type is written into the generated casts
+	valid2 := "@lexer\nA = 'a'\nB = 'b'\n@parser\n@start s = x+ y\nx = A\ny = B B\n"
+	for name, ty := range map[string]string{
+		"struct with field tag":   "struct {\n\tK string \x60json:\"k&<>'\"\x60\n}",
+		"receive-only channel":    "<-chan map[string]*Token",
+		"func with named results": "func(a, b int) (s string, err error)",
+	} {
+		src := "package main\n\ntype Token struct{ Type int }\ntype P struct{ lox }\n\ntype T = " + ty + "\n\n" +
+			"func (p *P) on_x(a Token) " + ty + " { var z T; return z }\n" +
+			"func (p *P) on_y(a, b Token) T { var z T; return z }\n" +
+			"func (p *P) on_s(xs []" + ty + ", y T) int { return len(xs) }\n"
+		addJob("go package: rule type "+name, valid2, src, true)
 	}
 	addJob("go package: none", valid, "", false)
 	addJob("no .lox file", "\x00none", okGo, true)
